@@ -10,6 +10,7 @@
 // -1 and last_error is BR_ERR_IO (never 0: truncation is not reported as a
 // clean end of stream); the wrapper never spins (bounded callback count).
 #include "common/tls_session.hpp"
+#include <csetjmp>
 
 using namespace vf;
 using namespace tls;
@@ -33,6 +34,9 @@ struct Link {
 	unsigned alerts_from_io = 0, alerts_from_peer = 0;
 	bool ccs_io = false, ccs_peer = false;
 	std::string cfg;
+	bool peer_gone = false;         // the peer has sent its close_notify and shut the transport down
+	uint64_t gone_calls = 0;
+	jmp_buf *spin = nullptr;        // escape hatch out of a wrapper call that never returns
 };
 
 // alert records sent under encryption (after the sender's ChangeCipherSpec)
@@ -101,10 +105,17 @@ static bool cut_now(Link &L)
 	return false;
 }
 
+static bool gone(Link &L)
+{
+	if (!L.peer_gone) return false;
+	if (++L.gone_calls > 200000 && L.spin) longjmp(*L.spin, 1);
+	return true;
+}
 static int cb_read(void *ctx, unsigned char *buf, size_t len)
 {
 	Link &L = *(Link *)ctx;
 	if (cut_now(L)) return -1;
+	if (L.to_io.empty() && gone(L)) return -1;
 	VF_CHECK(len > 0, "%s: br_sslio asked the transport to read 0 bytes", L.cfg.c_str());
 	if (L.to_io.empty()) pump_peer(L);
 	if (L.to_io.empty()) return -1;   // nothing will ever come: end of transport
@@ -120,6 +131,7 @@ static int cb_write(void *ctx, const unsigned char *buf, size_t len)
 {
 	Link &L = *(Link *)ctx;
 	if (cut_now(L)) return -1;
+	if (gone(L)) return -1;
 	VF_CHECK(len > 0, "%s: br_sslio asked the transport to write 0 bytes", L.cfg.c_str());
 	unsigned r = L.t->u8();
 	size_t k = r == 0 ? len : 1 + r % len;
@@ -229,6 +241,41 @@ void target_run(Tape &t)
 				VF_CHECK(L.peer_recvd == sent_before, "%s [%s]: close reported clean but the peer read %zu of %zu bytes written before it", L.cfg.c_str(), hist.c_str(), L.peer_recvd, sent_before);
 			} else failed = true;
 			break;
+		}
+		case 7: {
+			// the peer closes in an orderly way and shuts the transport down without waiting for our
+			// close_notify (RFC 5246 7.2.1 allows that); the application reads to the end, then closes
+			if (!L.io_ep->handshake_done() || L.cut_after >= 0) break;
+			r = br_sslio_flush(&io);
+			if (r < 0) { failed = true; break; }
+			pump_peer(L);
+			if (L.peer->closed() || !L.peer->handshake_done()) break;
+			L.peer->close();
+			pump_peer(L);
+			L.peer_gone = true;
+			static jmp_buf jb;
+			L.spin = &jb;
+			volatile int stage = 0;
+			if (setjmp(jb) == 0) {
+				uint8_t tmp[256];
+				int guard = 0;
+				while ((r = br_sslio_read(&io, tmp, sizeof tmp)) > 0 && ++guard < 100000) L.io_recvd += (size_t)r;
+				stage = 1;
+				r = br_sslio_close(&io);
+				stage = 2;
+			} else {
+				L.spin = nullptr;
+				failf("%s [%s]: the peer sent close_notify and shut the transport down; %s never returned (the wrapper called the failing transport %llu times): a caller spins forever", L.cfg.c_str(), hist.c_str(),
+					stage == 0 ? "br_sslio_read()" : "br_sslio_close()", (unsigned long long)L.gone_calls);
+			}
+			L.spin = nullptr;
+			hist += fmt("peer-closes-and-leaves close=%d ", r);
+			BearEndpoint *e2 = L.io_ep;
+			VF_CHECK(e2->closed(), "%s [%s]: after br_sslio_close() the engine is not closed (state %#x)", L.cfg.c_str(), hist.c_str(), e2->state());
+			VF_CHECK(e2->error() == 0 && r == 1, "%s [%s]: the peer closed in an orderly way (close_notify received) yet the closure is reported as failed: error %d, br_sslio_close %d", L.cfg.c_str(), hist.c_str(), e2->error(), r);
+			stats.cls("outcome:peer-closed-and-left");
+			stats.eval(fmt("%u/%d/%u/leave", cb % 5, io_is_client, lb & 31));
+			return;
 		}
 		default: break;
 		}
